@@ -567,7 +567,10 @@ def apply_patch(text, p, fired, where):
     old, new = p["old"], p["new"]
     cnt = p.get("count", 1)
     n = text.count(old)
-    if n != cnt:
+    if cnt == "any":
+        if n == 0:
+            raise Undecided(f"{p.get('rule', 'R4')} patch anchor {old!r} does not occur in {where}")
+    elif n != cnt:
         raise Undecided(f"{p.get('rule', 'R4')} patch anchor {old!r} occurs {n} times in {where}, expected {cnt}")
     fired.append(p.get("rule", "R4"))
     return text.replace(old, new)
